@@ -404,6 +404,7 @@ def same(a, b):
     if isinstance(a, dict) and isinstance(b, dict):
         if len(a) != len(b):
             return False
+        bkeys = {x: x for x in b}     # equal value -> the key object b holds
         for k, v in a.items():
             if isinstance(k, float) and k != k:
                 # NaN key: find by bit pattern
@@ -414,7 +415,7 @@ def same(a, b):
             if k not in b or not same(v, b[k]):
                 return False
             # the key itself must be the same kind of thing (-0.0 vs 0.0)
-            kk = [x for x in b if x == k][0]
+            kk = bkeys[k]
             if not same(k, kk):
                 return False
         return True
